@@ -206,7 +206,7 @@ def specs(draw, uid, max_classes=5, allow_hooks=True):
 def concrete_candidates(spec, name):
     """Registered, instantiable classes at a position typed `name`."""
     out = []
-    for c in spec['classes']:
+    for c in list(spec.get('imported') or ()) + spec['classes']:
         if c['kind'] not in ('regular',):
             continue
         # is c == name or a descendant of it?
@@ -489,7 +489,7 @@ def doc_texts(draw, spec, t, p_corrupt=0.5, max_corrupt=2):
 def root_types(spec):
     """Reasonable document types for a spec (texprs)."""
     out = []
-    for c in spec['classes']:
+    for c in list(spec.get('imported') or ()) + spec['classes']:
         if c.get('registered', True):
             out.append(['cls', c['name']])
     names = [c['name'] for c in spec['classes'] if c.get('registered', True)]
